@@ -903,14 +903,15 @@ func TestVerif_C16(t *testing.T) {
 			cfg.MaxFaults = 0
 			hbfs.Explore(c, c16Spec(cfg, 4, false))
 		} else {
-			cfg := c16Cfg{Step: BackgroundResyncTimeBudget, MaxFaults: 1, Filter: true}
-			hbfs.Explore(c, c16Spec(cfg, 5, false))
-			cfg.Step = 0
-			hbfs.Explore(c, c16Spec(cfg, 5, false))
-			cfg = c16Cfg{Step: BackgroundResyncTimeBudget, MaxFaults: 2, Reduced: true}
-			hbfs.Explore(c, c16Spec(cfg, 4, false))
-			cfg = c16Cfg{Step: BackgroundResyncTimeBudget, MaxFaults: 1, Reduced: true}
+			// small explorations first, so that a deadline hit on a loaded machine cuts the big ones
+			cfg := c16Cfg{Step: BackgroundResyncTimeBudget, MaxFaults: 1, Reduced: true}
 			hbfs.Explore(c, c16Spec(cfg, 3, true))
+			cfg = c16Cfg{Step: BackgroundResyncTimeBudget, MaxFaults: 2, Reduced: true}
+			hbfs.Explore(c, c16Spec(cfg, 3, false))
+			cfg = c16Cfg{Step: BackgroundResyncTimeBudget, MaxFaults: 1, Filter: true}
+			hbfs.Explore(c, c16Spec(cfg, 5, false))
+			cfg = c16Cfg{Step: 0, MaxFaults: 1, Filter: true, Reduced: true}
+			hbfs.Explore(c, c16Spec(cfg, 5, false))
 		}
 	})
 }
